@@ -250,6 +250,14 @@ def main():
             replay = rest.pop(0)
     if tier not in ("quick", "thorough"):
         tier = "quick"
+    # one run per property at a time: a run regenerates coq/generated/* and coq/cases/Cases_<id>_* for its property from the
+    # tree it checks, so two concurrent runs of the same property (e.g. /repo and a scratch worktree) must not interleave
+    import fcntl
+
+    lockdir = C.VERIF / "build" / "locks"
+    lockdir.mkdir(parents=True, exist_ok=True)
+    lockf = open(lockdir / f"{prop}.lock", "w")
+    fcntl.flock(lockf, fcntl.LOCK_EX)
     t0 = time.time()
     seed = C.seed_from_env()
     mod = importlib.import_module(f"props.{prop.lower()}")
